@@ -196,6 +196,26 @@ pub fn draw_cfg(profile: &str, thorough: bool, rng: &mut Rng) -> RunCfg {
                 ],
             );
         }
+        "snap" => {
+            // node 0 is the archivist (no GC); at least one other node collects garbage
+            nodes[0].skip_gc = true;
+            if nodes.len() > 1 {
+                nodes[1].skip_gc = false;
+            }
+            gen.subdoc_pct = 0;
+            gen.del_pct = *rng.pick(&[25, 40]);
+            cfg.w_special = rng.range(6, 14) as u32;
+            pick_faults(
+                rng,
+                &mut [
+                    (&mut cfg.w_dup, 2, 12),
+                    (&mut cfg.w_drop, 2, 8),
+                    (&mut cfg.w_hold, 2, 8),
+                    (&mut cfg.w_sync, 3, 12),
+                    (&mut cfg.w_partition, 1, 5),
+                ],
+            );
+        }
         "svsync" => {
             cfg.w_sync = rng.range(8, 20) as u32;
             cfg.w_special = rng.range(3, 10) as u32;
